@@ -8,6 +8,7 @@ package classifier
 import (
 	"bytes"
 	"fmt"
+	"sort"
 	"strings"
 	"testing"
 
@@ -121,7 +122,7 @@ func c01Build(c *c01Case, cl *Classifier) (input []byte, planted []c01Planted, w
 		s := sepAt(i)
 		// two copies never share a physical line (known finding F18): when the previous copy is
 		// followed inline and this one is preceded inline, the separator spans at least two lines.
-		if i > 0 && c.Copies[i-1].InlineAfter && cp.InlineBefore {
+		if i > 0 && c.Copies[i-1].InlineAfter && cp.InlineBefore && openClass("matches-share-a-line") {
 			if s.Lines < 2 {
 				s.Lines = 2
 			}
@@ -158,12 +159,16 @@ func c01Build(c *c01Case, cl *Classifier) (input []byte, planted []c01Planted, w
 		planted = append(planted, c01Planted{file: f, off: len(want), n: d.size(),
 			startLine: nlBefore + d.Tokens[0].Line, endL: nlBefore + d.Tokens[d.size()-1].Line})
 		want = append(want, idsOnly(d.Tokens)...)
-		buf.Write(f.Content)
 		if cp.InlineAfter {
+			// OOV words follow on the copy's last word-bearing line
+			buf.Write(bytes.TrimRight(f.Content, " \t\r\n"))
 			buf.WriteByte(' ')
 			cls["inline-after"] = true
-		} else if !bytes.HasSuffix(f.Content, []byte("\n")) {
-			buf.WriteByte('\n')
+		} else {
+			buf.Write(f.Content)
+			if !bytes.HasSuffix(f.Content, []byte("\n")) {
+				buf.WriteByte('\n')
+			}
 		}
 	}
 	s := sepAt(len(c.Copies))
@@ -187,6 +192,7 @@ func c01Build(c *c01Case, cl *Classifier) (input []byte, planted []c01Planted, w
 	for k := range cls {
 		classes = append(classes, k)
 	}
+	sort.Strings(classes)
 	return buf.Bytes(), planted, want, classes, true
 }
 
